@@ -496,6 +496,11 @@ def model_lines(obs: Dict[str, Any]) -> Tuple[List[Dict[str, Any]], List[Dict[st
             continue
         lines.append({"op": "sentDoc", **obs["env"], "operation": d["wire"], "marksIn": sorted(marks)})
         defs.append(d)
+        if "error" in d["impl"]:
+            # the real pipeline aborts at the first operation that raises; the failed operation may already have
+            # inserted `__typename` into shared fragment ASTs, so later operations of this document are no behaviour
+            # of ariadne-codegen: not compared (same rule as rt_common.class_ir_correspondence)
+            break
         for m in d["impl"].get("marks", []) or []:
             if m > 0 and m not in marks:
                 marks.append(m)
